@@ -245,8 +245,8 @@ _EXTRA = {
     "C10": ["samplers.mcmc:Emcee.sample", "samplers.mcmc:MiniPCN.sample", "samples:BaseSamples.from_dict", "utils:PoolHandler.__exit__"],
     "C11": ["samples:BaseSamples.from_samples", "aspire:Aspire.resume_from_file"],
     "C12": ["samplers.smc.base:SMCSampler.build_checkpoint_state", "aspire:Aspire.resume_from_file"],
-    "C14": ["aspire:Aspire.resume_from_file"],
-    "C13": ["samples:BaseSamples.__setstate__", "transforms:CompositeTransform.__init__"],
+    "C14": ["aspire:Aspire.resume_from_file", "samplers.smc.base:SMCSampler.sample", "aspire:Aspire.config_dict", "aspire:Aspire.save_config"],
+    "C13": ["samples:BaseSamples.__setstate__", "transforms:CompositeTransform.__init__", "samples:Samples.to_numpy", "samples:SMCSamples.to_numpy", "aspire:Aspire.config_dict", "aspire:Aspire.save_config"],
     "C15": ["flows.jax.flows:FlowJax.save", "flows.torch.flows:BaseTorchFlow.save", "samples:BaseSamples.from_dict", "samples:Samples.rejection_sample",
             "transforms:CompositeTransform.forward", "transforms:CompositeTransform.inverse"],
     "C17": ["aspire:Aspire.sample_posterior", "samplers.mcmc:Emcee.sample", "samplers.mcmc:MiniPCN.sample", "samplers.base:Sampler.log_likelihood"],
